@@ -56,10 +56,14 @@ def evaluate(name, tests=False, tier="quick", seed=0, base="seeded"):
             res["demo_exit_with_change"] = r1.returncode
             res["demo_tail"] = r1.stdout.decode(errors="replace")[-400:]
         if tests:
-            t = sh([PY, "-m", "pytest", "-q", "-p", "no:cacheprovider", "-x", "--deselect",
-                    "tests/handlers/test_live_data.py::test_sample_overweight", "--deselect",
-                    "tests/utils/test_file_utils.py::test_get_directory_path", "tests"], cwd=wt,
-                   env=dict(os.environ, PYTHONPATH=os.path.join(wt, "src")), timeout=3600)
+            for _attempt in range(3):  # tests/handlers/test_combined_data.py::test_get_unexpected_units_county is
+                # flaky (about 1 run in 6) on the untouched tree: a failing suite is repeated before it is believed
+                t = sh([PY, "-m", "pytest", "-q", "-p", "no:cacheprovider", "-x", "--deselect",
+                        "tests/handlers/test_live_data.py::test_sample_overweight", "--deselect",
+                        "tests/utils/test_file_utils.py::test_get_directory_path", "tests"], cwd=wt,
+                       env=dict(os.environ, PYTHONPATH=os.path.join(wt, "src")), timeout=3600)
+                if t.returncode == 0:
+                    break
             res["tests_exit"] = t.returncode
             res["tests_tail"] = t.stdout.decode(errors="replace").strip().splitlines()[-1:]
         checks = meta.get("checks") or [meta["property"]]
